@@ -321,7 +321,7 @@ fn layer2(rep: &Report, env: &Env, flags: &[RFlags]) {
     rep.extra("layer2_letters", json!(s2.len()));
     let a_id = coin_id(&P1, &PH1, 5);
     // second spend variants: none, B (child of A: exists as ephemeral iff A creates (PH2,3)), C (same ph), D (double spend)
-    let seconds: Vec<(&str, Option<([u8; 32], [u8; 32], u64)>)> = vec![("A", None), ("A+B", Some((a_id, PH2, 3))), ("A+C", Some((P2, PH1, 5))), ("A+D", Some((P1, PH1, 5)))];
+    let seconds: Vec<(&str, Option<([u8; 32], [u8; 32], u64)>)> = vec![("A", None), ("A+B", Some((a_id, PH2, 3))), ("B+A", Some((a_id, PH2, 3))), ("A+C", Some((P2, PH1, 5))), ("A+D", Some((P1, PH1, 5)))];
     let max_first = rep.tier.pick(2usize, 2);
     // first-spend condition lists: all lists (ordered, with repetition) of length 0..=2
     let mut firsts: Vec<Vec<usize>> = vec![vec![]];
@@ -353,7 +353,8 @@ fn layer2(rep: &Report, env: &Env, flags: &[RFlags]) {
                     Some((p, ph, am)) => {
                         for sl in &second_lists {
                             let c2 = Sx::list(&sl.iter().map(|i| s2[*i].1.clone()).collect::<Vec<_>>());
-                            let out = output(&[spend(&P1, &PH1, 5, c1.clone()), spend(p, ph, *am, c2)]);
+                            // "B+A": the child is listed before the spend that creates it
+                            let out = if *sname == "B+A" { output(&[spend(p, ph, *am, c2), spend(&P1, &PH1, 5, c1.clone())]) } else { output(&[spend(&P1, &PH1, 5, c1.clone()), spend(p, ph, *am, c2)]) };
                             let tag2 = format!("{tag}|{sname}|{}", sl.first().map_or("none".to_string(), |i| s2[*i].0.clone()));
                             for f in flags {
                                 case(rep, &mut loc, env, "L2", &tag2, &out, *f);
@@ -513,10 +514,13 @@ fn layer2_mode_aliasing(rep: &Report, env: &Env, flags: &[RFlags]) {
 fn layer2_totals(rep: &Report, env: &Env, flags: &[RFlags]) {
     let amounts: [u64; 5] = [0, 1, 1000, 1 << 63, u64::MAX];
     let fees: [Option<u64>; 4] = [None, Some(1), Some(5000), Some(u64::MAX)];
-    let creates: [Option<u64>; 3] = [None, Some(1), Some(u64::MAX)];
+    // created amounts of one spend (distinct puzzle hashes); the last two make a single spend's
+    // outputs alone exceed 2^64
+    let creates: [&[u64]; 5] = [&[], &[1], &[u64::MAX], &[u64::MAX, u64::MAX], &[u64::MAX, u64::MAX, 1]];
+    let targets = [PH2, H2, P2];
     let parents = [P1, P2, H1];
     // one spend choice = (amount, fee, created amount)
-    let mut choices: Vec<(u64, Option<u64>, Option<u64>)> = Vec::new();
+    let mut choices: Vec<(u64, Option<u64>, &[u64])> = Vec::new();
     for a in amounts {
         for f in fees {
             for c in creates {
@@ -524,13 +528,13 @@ fn layer2_totals(rep: &Report, env: &Env, flags: &[RFlags]) {
             }
         }
     }
-    let mk = |k: usize, ch: &(u64, Option<u64>, Option<u64>)| {
+    let mk = |k: usize, ch: &(u64, Option<u64>, &[u64])| {
         let mut conds = Vec::new();
         if let Some(f) = ch.1 {
             conds.push(cond(52, &[Sx::Atom(enc_u64(f))]));
         }
-        if let Some(c) = ch.2 {
-            conds.push(cond(51, &[Sx::atom(&PH2), Sx::Atom(enc_u64(c))]));
+        for (t, c) in ch.2.iter().enumerate() {
+            conds.push(cond(51, &[Sx::atom(&targets[t]), Sx::Atom(enc_u64(*c))]));
         }
         spend(&parents[k], &PH1, ch.0, Sx::list(&conds))
     };
@@ -545,7 +549,7 @@ fn layer2_totals(rep: &Report, env: &Env, flags: &[RFlags]) {
     }
     if max_spends >= 3 {
         // triples: the third spend ranges over the fee-less, output-less choices and the extremes
-        let third: Vec<usize> = (0..n).filter(|i| matches!(choices[*i], (_, None, None) | (u64::MAX, Some(u64::MAX), _) | (u64::MAX, _, Some(u64::MAX)))).collect();
+        let third: Vec<usize> = (0..n).filter(|i| matches!(choices[*i], (_, None, []) | (u64::MAX, Some(u64::MAX), _) | (u64::MAX, _, [u64::MAX, ..]))).collect();
         for i in 0..n {
             for j in 0..n {
                 for k in &third {
@@ -590,7 +594,7 @@ fn layer4(rep: &Report, env: &Env) {
 
 fn run(rep: &Report) {
     let env = drive::env();
-    rep.set_rule("generator outputs in four layers x flag subsets of {NO_UNKNOWN_CONDS, STRICT_ARGS_COUNT, COST_CONDITIONS} x {EmptyVisitor, MempoolVisitor} (signatures not validated): L1 = one condition: 52 opcode atoms x every argument list of length <= 2 (quick) / <= 3 (thorough) over 27 universal letters x {nil, 01} terminator; L1m = SEND/RECEIVE x all 64 modes + 6 malformed modes x 3 message sizes x type-correct commitment with every single off-type substitution, missing/extra argument; L1i = 13 integer conditions x 17 integer atoms x {no extra arg, extra, nil extra}, CREATE_COIN x 3 puzzle hashes x 17 amounts x 11 memo shapes x tail x terminator, 17 spend amount atoms; L2 = spend A with every ordered list of <= 2 of the interaction letters, alone or with B (child) / C (same puzzle hash) / D (double spend) carrying <= 1 letter (thorough: + every ordered triple over one representative letter per condition kind); L2x = a coin with parent id = puzzle hash messaging itself under every pair of source modes (mode bits are part of the commitment); L2s = every list of 1..2 (thorough: 3) spends over amount {0,1,1000,2^63,2^64-1} x RESERVE_FEE {none,1,5000,2^64-1} x CREATE_COIN {none,1,2^64-1} (bundle totals crossing 2^64); L3 = structural defects at the 5 list positions; L4 = 1023/1024/1025 announcements, 5999/6000/6001 spends with LIMIT_SPENDS. distinct = distinct accepted reference summaries under the empty flag set.");
+    rep.set_rule("generator outputs in four layers x flag subsets of {NO_UNKNOWN_CONDS, STRICT_ARGS_COUNT, COST_CONDITIONS} x {EmptyVisitor, MempoolVisitor} (signatures not validated): L1 = one condition: 52 opcode atoms x every argument list of length <= 2 (quick) / <= 3 (thorough) over 27 universal letters x {nil, 01} terminator; L1m = SEND/RECEIVE x all 64 modes + 6 malformed modes x 3 message sizes x type-correct commitment with every single off-type substitution, missing/extra argument; L1i = 13 integer conditions x 17 integer atoms x {no extra arg, extra, nil extra}, CREATE_COIN x 3 puzzle hashes x 17 amounts x 11 memo shapes x tail x terminator, 17 spend amount atoms; L2 = spend A with every ordered list of <= 2 of the interaction letters, alone or with B (child, listed after or before A) / C (same puzzle hash) / D (double spend) carrying <= 1 letter (thorough: + every ordered triple over one representative letter per condition kind); L2x = a coin with parent id = puzzle hash messaging itself under every pair of source modes (mode bits are part of the commitment); L2s = every list of 1..2 (thorough: 3) spends over amount {0,1,1000,2^63,2^64-1} x RESERVE_FEE {none,1,5000,2^64-1} x CREATE_COINs {none; 1; 2^64-1; 2^64-1 twice; 2^64-1 twice + 1} (bundle totals and a single spend's outputs crossing 2^64); L3 = structural defects at the 5 list positions; L4 = 1023/1024/1025 announcements, 5999/6000/6001 spends with LIMIT_SPENDS. distinct = distinct accepted reference summaries under the empty flag set.");
     rep.assume("reference model mc::refcond implements DESIGN.md Appendix A; valid public keys are exactly the harness's three keys (other 48-byte letters are the infinity encoding and an off-curve string, self-checked at start)");
     rep.assume("only accept/reject, the canonical summary and the condition cost are compared, never error codes");
     let flags = all_rflags(&[false, true], false);
